@@ -4,7 +4,7 @@
    read) and C05Proof (how it is read). *)
 From Coq Require Import ZArith List Bool Lia.
 From PM Require Import Lib.Py Spec.LegalKey Model.Lits Spec.Proto Spec.Server Model.World Model.Readers Model.Serde Model.Client
-                       Proofs.Hoare Proofs.ReaderFacts Proofs.DecimalFacts Proofs.C02Proof Proofs.C05Proof Proofs.Quiet.
+                       Proofs.Hoare Proofs.ReaderFacts Proofs.DecimalFacts Proofs.C02Proof Proofs.C05Proof Proofs.Quiet Proofs.QuietFetch Proofs.QuietConnect Proofs.QuietAny.
 Import ListNotations.
 Open Scope Z_scope.
 
@@ -43,24 +43,30 @@ Section E2E.
 Variable c : cfg.
 Hypothesis catches_misc : forall e, exn_isa e Exception_ = true -> exn_isa e (h_misc c) = true.
 Hypothesis catches_store : forall e, exn_isa e Exception_ = true -> exn_isa e (h_store c) = true.
+(* where the call starts: Some sid = connected on sid with nothing pending (the connection is kept); None = any ready client,
+   closed or connected, that may have to connect first (Proofs/QuietAny.v) *)
+Variable fr : option Z.
+Hypothesis Hcan : connectable c fr.
 Notation world := (world sstate).
 Notation St := (St sstate).
+Notation Start := (Start sstate fr).
+Notation Done := (Done sstate fr).
 
 (* one command through _misc_cmd: the reply line that comes back, and nothing left *)
-Lemma misc_single sid s cm bytes : wf_cmd cm = true -> single_line cm = true -> bytes = render cm ->
+Lemma misc_single s cm bytes : wf_cmd cm = true -> single_line cm = true -> bytes = render cm ->
   let s' := fst (exec s cm) in let o := snd (exec s cm) in
   if is_noreply cm
-  then hoare (St sid s []) (misc_cmd sstate serve c [bytes] true []) (fun _ => St sid s' []) (fun _ _ => False)
-  else hoare (St sid s []) (misc_cmd sstate serve c [bytes] false [])
-             (fun res w => read_misc_lines [reply_line o] [] = Ok res /\ St sid s' [] w)
+  then hoare (Start s) (misc_cmd sstate serve c [bytes] true []) (fun _ => Done s') (fun _ _ => False)
+  else hoare (Start s) (misc_cmd sstate serve c [bytes] false [])
+             (fun res w => read_misc_lines [reply_line o] [] = Ok res /\ Done s' w)
              (fun e w => read_misc_lines [reply_line o] [] = Raise e /\ w_sock w = None).
 Proof.
   intros Hwf Hs ->. cbn zeta.
   pose proof (serve_one s cm Hwf) as Hsv. pose proof (exec_not_values s cm Hs) as Hnv.
   destruct (exec s cm) as [s' o] eqn:Ex. cbn [fst snd] in *.
   destruct (is_noreply cm).
-  - apply (misc_cmd_noreply_quiet sstate serve c sid s s' [render cm]). cbn [concat]. rewrite app_nil_r. exact Hsv.
-  - apply (misc_cmd_quiet sstate serve c sid s s' [render cm] [reply_line o]).
+  - apply (misc_cmd_noreply_any sstate serve c fr Hcan s s' [render cm]). cbn [concat]. rewrite app_nil_r. exact Hsv.
+  - apply (misc_cmd_any sstate serve c fr Hcan s s' [render cm] [reply_line o]).
     + cbn [concat]. rewrite app_nil_r, Hsv, (reply_single cm o Hnv). unfold lines_bytes. cbn. rewrite app_nil_r. reflexivity.
     + reflexivity.
     + constructor; [apply reply_line_ok, Hnv|constructor].
@@ -68,20 +74,20 @@ Proof.
 Qed.
 
 (* ---- delete ---- *)
-Theorem delete_e2e sid s key n k : check_key c (c_prefix c) key = Ok k ->
+Theorem delete_e2e s key n k : check_key c (c_prefix c) key = Ok k ->
   let nr := eff_noreply c n in
   let s' := fst (exec s (CDelete k nr)) in let o := snd (exec s (CDelete k nr)) in
-  hoare (St sid s []) (run_op sstate serve c (OpDelete key n))
-        (fun v w => v = (if nr then DBool true else contract_delete o) /\ St sid s' [] w) (fun _ _ => False).
+  hoare (Start s) (run_op sstate serve c (OpDelete key n))
+        (fun v w => v = (if nr then DBool true else contract_delete o) /\ Done s' w) (fun _ _ => False).
 Proof.
   intros Hk. cbn zeta. cbn [run_op]. set (nr := eff_noreply c n).
   destruct (delete_wellformed c key nr k Hk) as [Hb _].
   assert (Hwf : wf_cmd (CDelete k nr) = true) by (cbn; apply (check_key_legal c _ _ _ Hk)).
-  pose proof (misc_single sid s (CDelete k nr) (L_delete_sp ++ k ++ (if nr then L_noreply else []) ++ L_crlf) Hwf eq_refl Hb) as M.
+  pose proof (misc_single s (CDelete k nr) (L_delete_sp ++ k ++ (if nr then L_noreply else []) ++ L_crlf) Hwf eq_refl Hb) as M.
   cbn zeta in M. cbn [is_noreply] in M.
   pose proof (delete_reading s k nr) as R. cbn zeta in R.
   destruct (exec s (CDelete k nr)) as [s' o]. cbn [fst snd] in *.
-  eapply h_bind with (Q1 := fun k0 w => k0 = k /\ St sid s [] w).
+  eapply h_bind with (Q1 := fun k0 w => k0 = k /\ Start s w).
   { intros w Hw. unfold lift. rewrite Hk. auto. }
   intros k0. unfold read_delete in R.
   destruct (raise_errors (reply_line o)) as [u|e0] eqn:Er; [|discriminate]. cbn [bind] in R. inversion R as [R'].
@@ -96,24 +102,24 @@ Proof.
 Qed.
 
 (* ---- touch ---- *)
-Theorem touch_e2e sid s key expire n k eb : check_key c (c_prefix c) key = Ok k -> check_integer c expire = Ok eb -> in_i64 expire ->
+Theorem touch_e2e s key expire n k eb : check_key c (c_prefix c) key = Ok k -> check_integer c expire = Ok eb -> in_i64 expire ->
   exists z, int_value expire = Some z /\
   let nr := eff_noreply c n in
   let s' := fst (exec s (CTouch k z nr)) in let o := snd (exec s (CTouch k z nr)) in
-  hoare (St sid s []) (run_op sstate serve c (OpTouch key expire n))
-        (fun v w => v = (if nr then DBool true else contract_touch o) /\ St sid s' [] w) (fun _ _ => False).
+  hoare (Start s) (run_op sstate serve c (OpTouch key expire n))
+        (fun v w => v = (if nr then DBool true else contract_touch o) /\ Done s' w) (fun _ _ => False).
 Proof.
   intros Hk He Hr. set (nr := eff_noreply c n).
   destruct (touch_wellformed c key expire nr k eb Hk He Hr) as (z & Ez & Hb & _). exists z. split; [exact Ez|]. cbn zeta. fold nr.
   assert (Hwf : wf_cmd (CTouch k z nr) = true).
   { unfold wf_cmd. rewrite (check_key_legal c _ _ _ Hk). cbn [andb]. specialize (Hr z Ez). apply andb_true_iff. split; [apply Z.leb_le; lia|apply Z.ltb_lt; lia]. }
-  pose proof (misc_single sid s (CTouch k z nr) (L_touch_sp ++ k ++ L_sp ++ eb ++ (if nr then L_noreply else []) ++ L_crlf) Hwf eq_refl Hb) as M.
+  pose proof (misc_single s (CTouch k z nr) (L_touch_sp ++ k ++ L_sp ++ eb ++ (if nr then L_noreply else []) ++ L_crlf) Hwf eq_refl Hb) as M.
   cbn zeta in M. cbn [is_noreply] in M.
   pose proof (touch_reading s k z nr) as R. cbn zeta in R.
   destruct (exec s (CTouch k z nr)) as [s' o]. cbn [fst snd] in *. cbn [run_op]. fold nr.
-  eapply h_bind with (Q1 := fun k0 w => k0 = k /\ St sid s [] w).
+  eapply h_bind with (Q1 := fun k0 w => k0 = k /\ Start s w).
   { intros w Hw. unfold lift. rewrite Hk. auto. }
-  intros k0. eapply h_bind with (Q1 := fun e0 w => e0 = eb /\ k0 = k /\ St sid s [] w).
+  intros k0. eapply h_bind with (Q1 := fun e0 w => e0 = eb /\ k0 = k /\ Start s w).
   { intros w [-> Hw]. unfold lift. rewrite He. auto. }
   intros e0. unfold read_touch in R.
   destruct (raise_errors (reply_line o)) as [u|x] eqn:Er; [|discriminate]. cbn [bind] in R. inversion R as [R'].
@@ -128,21 +134,21 @@ Proof.
 Qed.
 
 (* ---- flush_all ---- *)
-Theorem flush_e2e sid s delay n db : check_integer c delay = Ok db -> (forall z, int_value delay = Some z -> 0 <= z) ->
+Theorem flush_e2e s delay n db : check_integer c delay = Ok db -> (forall z, int_value delay = Some z -> 0 <= z) ->
   exists z, int_value delay = Some z /\
   let nr := eff_noreply c n in
   let s' := fst (exec s (CFlush z nr)) in
-  hoare (St sid s []) (run_op sstate serve c (OpFlushAll delay n)) (fun v w => v = DBool true /\ St sid s' [] w) (fun _ _ => False).
+  hoare (Start s) (run_op sstate serve c (OpFlushAll delay n)) (fun v w => v = DBool true /\ Done s' w) (fun _ _ => False).
 Proof.
   intros He Hr. set (nr := eff_noreply c n).
   destruct (flush_wellformed c delay nr db He Hr) as (z & Ez & Hb & _). exists z. split; [exact Ez|]. cbn zeta. fold nr.
   assert (Hwf : wf_cmd (CFlush z nr) = true).
   { unfold wf_cmd. specialize (Hr z Ez). apply Z.leb_le; lia. }
-  pose proof (misc_single sid s (CFlush z nr) (L_flush_all_sp ++ db ++ (if nr then L_noreply else []) ++ L_crlf) Hwf eq_refl Hb) as M.
+  pose proof (misc_single s (CFlush z nr) (L_flush_all_sp ++ db ++ (if nr then L_noreply else []) ++ L_crlf) Hwf eq_refl Hb) as M.
   cbn zeta in M. cbn [is_noreply] in M.
   assert (Ho : snd (exec s (CFlush z nr)) = OOk) by reflexivity.
   destruct (exec s (CFlush z nr)) as [s' o]. cbn [fst snd] in *. subst o. cbn [run_op]. fold nr.
-  eapply h_bind with (Q1 := fun e0 w => e0 = db /\ St sid s [] w).
+  eapply h_bind with (Q1 := fun e0 w => e0 = db /\ Start s w).
   { intros w Hw. unfold lift. rewrite He. auto. }
   intros e0. destruct nr.
   - intros w (-> & Hw). specialize (M w Hw). unfold mbind.
@@ -154,20 +160,20 @@ Proof.
 Qed.
 
 (* ---- incr / decr ---- *)
-Theorem arith_e2e sid s (inc : bool) key value n k vb : check_key c (c_prefix c) key = Ok k -> check_integer c value = Ok vb ->
+Theorem arith_e2e s (inc : bool) key value n k vb : check_key c (c_prefix c) key = Ok k -> check_integer c value = Ok vb ->
   (forall z, int_value value = Some z -> 0 <= z < 2 ^ 64) ->
   exists z, int_value value = Some z /\
   let nr := py_truthy n in
   let s' := fst (exec s (CArith inc k z nr)) in let o := snd (exec s (CArith inc k z nr)) in
-  hoare (St sid s []) (run_op sstate serve c (if inc then OpIncr key value n else OpDecr key value n))
-        (fun v w => (if nr then v = DNone else contract_arith o = Ok v) /\ St sid s' [] w)
+  hoare (Start s) (run_op sstate serve c (if inc then OpIncr key value n else OpDecr key value n))
+        (fun v w => (if nr then v = DNone else contract_arith o = Ok v) /\ Done s' w)
         (fun e w => nr = false /\ contract_arith o = Raise e /\ w_sock w = None).
 Proof.
   intros Hk Hv Hr. set (nr := py_truthy n).
   destruct (arith_wellformed c inc key value nr k vb Hk Hv Hr) as (z & Ez & Hb & _). exists z. split; [exact Ez|]. cbn zeta. fold nr.
   assert (Hwf : wf_cmd (CArith inc k z nr) = true).
   { unfold wf_cmd. rewrite (check_key_legal c _ _ _ Hk). cbn [andb]. specialize (Hr z Ez). apply andb_true_iff. split; [apply Z.leb_le; lia|apply Z.ltb_lt; lia]. }
-  pose proof (misc_single sid s (CArith inc k z nr) ((if inc then L_incr_sp else L_decr_sp) ++ k ++ L_sp ++ vb ++ (if nr then L_noreply else []) ++ L_crlf) Hwf eq_refl Hb) as M.
+  pose proof (misc_single s (CArith inc k z nr) ((if inc then L_incr_sp else L_decr_sp) ++ k ++ L_sp ++ vb ++ (if nr then L_noreply else []) ++ L_crlf) Hwf eq_refl Hb) as M.
   cbn zeta in M. cbn [is_noreply] in M.
   assert (Hz : 0 <= z) by (specialize (Hr z Ez); lia).
   pose proof (arith_reading s inc k z nr) as R. cbn zeta in R. specialize (R Hz).
@@ -175,9 +181,9 @@ Proof.
   assert (Hop : run_op sstate serve c (if inc then OpIncr key value n else OpDecr key value n) = arith sstate serve c (if inc then L_incr_sp else L_decr_sp) key value n)
     by (destruct inc; reflexivity).
   rewrite Hop. unfold arith. fold nr.
-  eapply h_bind with (Q1 := fun k0 w => k0 = k /\ St sid s [] w).
+  eapply h_bind with (Q1 := fun k0 w => k0 = k /\ Start s w).
   { intros w Hw. unfold lift. rewrite Hk. auto. }
-  intros k0. eapply h_bind with (Q1 := fun v0 w => v0 = vb /\ k0 = k /\ St sid s [] w).
+  intros k0. eapply h_bind with (Q1 := fun v0 w => v0 = vb /\ k0 = k /\ Start s w).
   { intros w [-> Hw]. unfold lift. rewrite Hv. auto. }
   intros v0. unfold read_arith in R.
   destruct nr.
@@ -207,13 +213,13 @@ Proof. unfold sv_of. destruct verb as [|p|p]; try reflexivity. do 3 (destruct p 
 Lemma key_eqb_refl key k : check_key c (c_prefix c) key = Ok k -> dyn_eqb key key = true.
 Proof. unfold check_key. destruct key; try discriminate; intros _; cbn; apply C13Proof.leq_refl. Qed.
 
-Theorem store_e2e sid s verb key value expire n flags bytes :
+Theorem store_e2e s verb key value expire n flags bytes :
   let nr := eff_noreply c n in let v := sv_of verb in
   store_bytes c (verb_name verb) [(key, value)] expire nr flags None = Ok bytes -> in_i64 expire -> in_u32 flags ->
   exists k f e db, store_intent c v [(key, value)] expire nr flags [] = Ok [CStore v k f e db [] nr] /\
   let s' := fst (exec s (CStore v k f e db [] nr)) in let o := snd (exec s (CStore v k f e db [] nr)) in
-  hoare (St sid s []) (run_op sstate serve c (OpStore verb key value expire n flags))
-        (fun r w => r = (if nr then DBool true else contract_store o) /\ St sid s' [] w) (fun _ _ => False).
+  hoare (Start s) (run_op sstate serve c (OpStore verb key value expire n flags))
+        (fun r w => r = (if nr then DBool true else contract_store o) /\ Done s' w) (fun _ _ => False).
 Proof.
   cbn zeta. set (nr := eff_noreply c n). set (v := sv_of verb). intros Hb He Hf.
   rewrite verb_name_sv in Hb. fold v in Hb.
@@ -242,19 +248,11 @@ Proof.
   intros w Hw. unfold mbind. rewrite (store_cmd_bytes sstate serve c), verb_name_sv. fold v. rewrite <- Hco, Hb.
   unfold read_store in R. destruct (raise_errors (reply_line o)) as [u|x] eqn:Er; [|discriminate]. cbn [bind] in R.
   destruct nr.
-  - pose proof (store_io_noreply_quiet sstate serve c sid s s' (sverb_name v) [(key, value)] bytes) as Q.
+  - pose proof (store_io_noreply_value_any sstate serve c fr Hcan s s' (sverb_name v) [(key, value)] bytes) as Q.
     rewrite Hby in Q. specialize (Q Hsv w Hw). rewrite <- Hby in Q.
-    destruct (store_io sstate serve c (sverb_name v) [(key, value)] true bytes w) as [[r|x] w'] eqn:Eio; [|destruct Q].
-    unfold store_io, mbind in Eio.
-    (* the value returned under noreply is the constant True for the key *)
-    assert (Hr : r = [DTuple [key; DBool true]]).
-    { revert Eio. unfold ensure_connected, mbind, get_sock. destruct Hw as (S1 & _). rewrite S1. cbn [ret].
-      unfold exchange, mbind, reset_buf, mtry. cbn [fst snd].
-      match goal with |- context [send serve bytes ?w0] => destruct (send serve bytes w0) as [[u2|x2] w2] end.
-      - cbn. intros X. inversion X. reflexivity.
-      - destruct (exn_isa x2 (h_store c)); [|discriminate]. destruct (client_close sstate w2) as [[u3|x3] w3]; discriminate. }
-    subst r. unfold lift. cbn [dict_get]. rewrite (key_eqb_refl key k Hk). split; [reflexivity|exact Q].
-  - pose proof (store_io_quiet sstate serve c sid s s' (sverb_name v) [(key, value)] bytes [reply_line o]) as Q.
+    destruct (store_io sstate serve c (sverb_name v) [(key, value)] true bytes w) as [[r|x] w']; [|destruct Q].
+    destruct Q as [-> Q]. cbn [fold_left dict_set fst]. unfold lift. cbn [dict_get]. rewrite (key_eqb_refl key k Hk). split; [reflexivity|exact Q].
+  - pose proof (store_io_any sstate serve c fr Hcan s s' (sverb_name v) [(key, value)] bytes [reply_line o]) as Q.
     assert (Hp : serve s bytes = (s', lines_bytes [reply_line o])).
     { rewrite Hby, Hsv, (reply_single _ o Hnv). unfold lines_bytes. cbn. rewrite app_nil_r. reflexivity. }
     specialize (Q Hp eq_refl (Forall_cons _ (reply_line_ok o Hnv) (Forall_nil _)) catches_store w Hw).
@@ -265,14 +263,14 @@ Proof.
 Qed.
 
 (* ---- cas ---- *)
-Theorem cas_e2e sid s key value cas expire n flags cb bytes :
+Theorem cas_e2e s key value cas expire n flags cb bytes :
   check_cas c cas = Ok cb ->
   let nr := py_truthy n in
   store_bytes c L_cas [(key, value)] expire nr flags (Some cb) = Ok bytes -> in_i64 expire -> in_u32 flags ->
   exists k f e db, store_intent c VCas [(key, value)] expire nr flags cb = Ok [CStore VCas k f e db cb nr] /\
   let s' := fst (exec s (CStore VCas k f e db cb nr)) in let o := snd (exec s (CStore VCas k f e db cb nr)) in
-  hoare (St sid s []) (run_op sstate serve c (OpCas key value cas expire n flags))
-        (fun r w => r = (if nr then DBool true else contract_store o) /\ St sid s' [] w) (fun _ _ => False).
+  hoare (Start s) (run_op sstate serve c (OpCas key value cas expire n flags))
+        (fun r w => r = (if nr then DBool true else contract_store o) /\ Done s' w) (fun _ _ => False).
 Proof.
   intros Hc. cbn zeta. set (nr := py_truthy n). intros Hb He Hf.
   change L_cas with (sverb_name VCas) in Hb. change (Some cb) with (cas_opt VCas cb) in Hb.
@@ -299,18 +297,11 @@ Proof.
   change L_cas with (sverb_name VCas). change (Some cb) with (cas_opt VCas cb). rewrite Hb.
   unfold read_store in R. destruct (raise_errors (reply_line o)) as [u|x] eqn:Er; [|discriminate]. cbn [bind] in R.
   destruct nr.
-  - pose proof (store_io_noreply_quiet sstate serve c sid s s' (sverb_name VCas) [(key, value)] bytes) as Q.
+  - pose proof (store_io_noreply_value_any sstate serve c fr Hcan s s' (sverb_name VCas) [(key, value)] bytes) as Q.
     rewrite Hby in Q. specialize (Q Hsv w Hw). rewrite <- Hby in Q.
-    destruct (store_io sstate serve c (sverb_name VCas) [(key, value)] true bytes w) as [[r|x] w'] eqn:Eio; [|destruct Q].
-    unfold store_io, mbind in Eio.
-    assert (Hr : r = [DTuple [key; DBool true]]).
-    { revert Eio. unfold ensure_connected, mbind, get_sock. destruct Hw as (S1 & _). rewrite S1. cbn [ret].
-      unfold exchange, mbind, reset_buf, mtry. cbn [fst snd].
-      match goal with |- context [send serve bytes ?w0] => destruct (send serve bytes w0) as [[u2|x2] w2] end.
-      - cbn. intros X. inversion X. reflexivity.
-      - destruct (exn_isa x2 (h_store c)); [|discriminate]. destruct (client_close sstate w2) as [[u3|x3] w3]; discriminate. }
-    subst r. unfold lift. cbn [dict_get]. rewrite (key_eqb_refl key k Hk). split; [reflexivity|exact Q].
-  - pose proof (store_io_quiet sstate serve c sid s s' (sverb_name VCas) [(key, value)] bytes [reply_line o]) as Q.
+    destruct (store_io sstate serve c (sverb_name VCas) [(key, value)] true bytes w) as [[r|x] w']; [|destruct Q].
+    destruct Q as [-> Q]. cbn [fold_left dict_set fst]. unfold lift. cbn [dict_get]. rewrite (key_eqb_refl key k Hk). split; [reflexivity|exact Q].
+  - pose proof (store_io_any sstate serve c fr Hcan s s' (sverb_name VCas) [(key, value)] bytes [reply_line o]) as Q.
     assert (Hp : serve s bytes = (s', lines_bytes [reply_line o])).
     { rewrite Hby, Hsv, (reply_single _ o Hnv). unfold lines_bytes. cbn. rewrite app_nil_r. reflexivity. }
     specialize (Q Hp eq_refl (Forall_cons _ (reply_line_ok o Hnv) (Forall_nil _)) catches_store w Hw).
